@@ -307,6 +307,12 @@ fn run_case(case: &J) -> J {
                     reported[1] = true;
                     failures.push(fail("C08", step, format!("at the {}: stream-free script, traces differ beyond senders between {} and {} ({} vs {} states)", place, f.0, r.0, f.1.trace.len(), r.1.trace.len()), "trace-differs"));
                 }
+            } else if through_observer {
+                let strip = |m: BTreeMap<String, usize>| -> BTreeMap<String, usize> { m.into_iter().filter(|(k, _)| !k.ends_with("request-sent")).collect() };
+                if strip(weak(&f.1.trace)) != strip(weak(&r.1.trace)) && k1 == k2 && !reported[2] {
+                    reported[2] = true;
+                    failures.push(fail("C08", step, format!("at the {}: the states other than pending requests differ in more than generation numbers / iteration order between {} and {}: {:?} vs {:?}", place, f.0, r.0, strip(weak(&f.1.trace)), strip(weak(&r.1.trace))), "states-differ"));
+                }
             } else if weak(&f.1.trace) != weak(&r.1.trace) && k1 == k2 && !reported[2] {
                 reported[2] = true;
                 failures.push(fail("C08", step, format!("at the {}: traces differ in more than generation numbers / iteration order between {} and {}: {:?} vs {:?}", place, f.0, r.0, weak(&f.1.trace), weak(&r.1.trace)), "states-differ"));
